@@ -226,15 +226,36 @@ def r_stream(cls: str, opts):
     return stream_class(cls).for_rdflib(options=opts)
 
 
-EMPTY_GRAPHS = ("http://b#empty", "http://zz/empty2")
+# (several names, so that in rdflib's hash order some come before and some after the non-empty
+#  graphs)
+EMPTY_GRAPHS = ("http://b#empty", "http://zz/empty2", "http://a/e1", "urn:e2", "http://c/e3",
+                "e4")
 
 
-def r_graph(seq, bindings=(), empty=()):
+def _dataset_class(order):
+    import rdflib  # noqa: PLC0415
+
+    if order is None:
+        return rdflib.Dataset
+
+    class OrderedDataset(rdflib.Dataset):
+        """A Dataset that lists its graphs in a fixed order: the empty ones first (or last),
+        then by name (rdflib itself lists them in hash order)."""
+
+        def graphs(self, triple=None):
+            gs = list(super().graphs(triple))
+            first = order == "empty-first"
+            return iter(sorted(gs, key=lambda g: ((len(g) > 0) == first, str(g.identifier))))
+
+    return OrderedDataset
+
+
+def r_graph(seq, bindings=(), empty=(), order=None):
     """Graph for triples, Dataset for quads (explicit labels, no default bindings lost)."""
     import rdflib  # noqa: PLC0415
 
     if seq and len(seq[0]) == 4:
-        ds = rdflib.Dataset()
+        ds = _dataset_class(order)()
         for e in empty:
             ds.graph(rdflib.URIRef(e))  # registered, stays empty
         for p, iri in bindings:
